@@ -14,7 +14,9 @@ PROVED = ['Vsm <= Vsm_max (all inputs); Cvr_max in [0.05, 0.66]; Vsm_max >= 0 an
           'Wilson-stratified Erhg non-increasing in line speed on E (L(v)^0.26 / v decreasing; friction lemma shared with C04)',
           'both gradients exceed the water gradient whenever the excess gradient is positive (Rsd > 0, Cv > 0)',
           'Wilson stratified: Vsm > 0 for physical inputs with a positive friction factor and 0 < Cv/Cvb < 1, hence Erhg > 0 and the gradient exceeds '
-          'the water gradient at EVERY point of E, no positivity hypothesis (C20_Vsm_pos, C20_stratified_exceeds_water)']
+          'the water gradient at EVERY point of E, no positivity hypothesis (C20_Vsm_pos, C20_stratified_exceeds_water)',
+          'the non-rising clause at the entry points a caller uses: head loss minus water gradient, and pressure loss minus water pressure loss, do not rise with '
+          'line speed - Wilson stratified on E, V50 model for every physical grading (C20_stratified_excess_antitone_at_entry_points, C20_V50_excess_antitone_at_entry_points)']
 HYPOTHESES = ['positivity of the V50 excess gradient (V50 > 0 needs the friction-factor iteration to leave through its exit, i.e. to terminate; monitored)']
 MONITORED = ['V50 iteration terminates; result satisfies its implicit friction-factor equation within 0.5 %']
 RULE = ('E with d <= 0.1 Dp, musf in {0.31,0.4,0.415}, vls in [0.5,10], d85/d50 in (1.02,6]; both branches of the nomograph fit forced '
@@ -99,6 +101,17 @@ def monitor(ctx, extended=False):
             e1, e2 = WS.Erhg(*w), WS.Erhg(v2, *w[1:])
             if v2 > vls and e2 > e1 * (1 + 1e-12):
                 ctx.violation(f'Wilson stratified Erhg rises with line speed: {e1!r} at {vls} -> {e2!r} at {v2}', inp, key='erhg-rises')
+            # the same clause at the entry points a user calls: the excess gradient (head loss - water gradient, per unit Rsd*Cvt) read off the head and the
+            # pressure loss does not rise with the line speed either
+            if v2 > vls:
+                rc_ = (rhos - rhol) / rhol * Cv
+                il2 = Ho.fluid_head_loss(v2, Dp, eps, nu, rhol)
+                x1, x2 = (hs - il) / rc_, (WS.stratified_head_loss(v2, *w[1:]) - il2) / rc_
+                y1 = (ps_ - pl_) / rc_
+                y2 = (WS.stratified_pressure_loss(v2, *w[1:]) - Ho.fluid_pressure_loss(v2, Dp, eps, nu, rhol)) / rc_
+                if x2 > x1 * (1 + 1e-9) + 1e-12 or y2 > y1 * (1 + 1e-9) + 1e-12:
+                    ctx.violation(f'Wilson stratified: excess gradient read off the head / pressure loss rises with line speed: {x1!r} at {vls} -> {x2!r} at {v2} (pressure: {y1!r} -> {y2!r})',
+                                  dict(inp, v2=v2), key='erhg-rises')
             d85 = min(d * E.loguniform(ctx.rng, 1.02, 6.0), 0.25 * Dp)
             M = WV.M(Dp, d, d85, nu, rhol, rhos)
             if not 0.25 <= M <= 1.7:
@@ -131,6 +144,11 @@ def monitor(ctx, extended=False):
             e1, e2 = WV.Erhg(vls, Dp, d, d85, eps, nu, rhol, rhos, musf), WV.Erhg(v2, Dp, d, d85, eps, nu, rhol, rhos, musf)
             if v2 > vls and e2 > e1 * (1 + 1e-12):
                 ctx.violation(f'Wilson V50 Erhg rises with line speed: {e1!r} -> {e2!r}', dict(inp, d85=d85), key='erhg-rises')
+            if v2 > vls:
+                x1 = (hv - il) / rc_
+                x2 = (WV.heterogeneous_head_loss(v2, Dp, d, d85, eps, nu, rhol, rhos, Cv, musf) - il2) / rc_
+                if x2 > x1 * (1 + 1e-9) + 1e-12:
+                    ctx.violation(f'Wilson V50: excess gradient read off the head loss rises with line speed: {x1!r} at {vls} -> {x2!r} at {v2}', dict(inp, d85=d85, v2=v2), key='erhg-rises')
         except Timeout:
             ctx.violation('V50 iteration did not terminate within 10 s', inp, key='v50-termination')
         except Exception as e:   # noqa
